@@ -142,6 +142,16 @@ CLAIMED = {
         note="Does not decide that a depth-L input is accepted (language clause). Native stack use is bounded by argument "
              "from the descent rule (depth of recursion <= tree depth <= L), frame sizes being static.",
         design="§4 C19"),
+    "C12": dict(
+        technique="guarded-access and capacity typestate on every path of the container operations; classification of the new-capacity expression at the four growth sites under generated CBOR_BUFFER_GROWTH values",
+        text="Structural necessary conditions, decided on all paths: indexed get/set/replace touch data[index] only where "
+             "the path facts give index < size and the out-of-range path is a clean refusal; insertion writes slot [count] "
+             "and stores count+1, only where count < capacity is known or after a successful reallocation whose element "
+             "count becomes the capacity; the new capacity is 1 from 0, else GROWTH x old (guarded, same value reallocated "
+             "and stored, never additive) at all four sites, tracking the configured growth factor (thorough: 2, 3, 4).",
+        note="Equivalence with an abstract list over all histories and the amortised reallocation count are runtime/history "
+             "properties and are not claimed; the invariant count <= capacity is inductive over these rules (argument).",
+        design="§4 C12"),
     "C13": dict(
         technique="whole-library who-may-call + effect summaries (allocator call graph), block-provenance rule against the extracted constructor table",
         text="Decided as a whole by static who-may-call/effect analysis over all 20 units: external-symbol inventory "
